@@ -58,6 +58,19 @@ macro_rules! tree_test {
             let t = match built { Ok(t) => t, Err(_) => report($label, inp, "from(vec)".into(), "panic".into(), "a tree".into()) };
             let n = s.len();
             chk!($label, inp.clone(), "len()".to_string(), t.len(), n);
+            // C19: the construction paths and Clone give equal values (plain trees) / identical answers (Huffman)
+            if n <= 3000 {
+                let t2: $ty = s.iter().copied().collect();
+                let mut s3 = s.clone();
+                let t3 = <$ty>::new(&mut s3[..]);
+                if $has_max_rule {
+                    chk!($label, inp.clone(), "collect() == from(vec)".to_string(), t2 == t, true);
+                    chk!($label, inp.clone(), "new(&mut slice) == from(vec)".to_string(), t3 == t, true);
+                }
+                chk!($label, inp.clone(), "clone() == self".to_string(), t.clone() == t, true);
+                chk!($label, inp.clone(), "collect().iter() == from(vec).iter()".to_string(), t2.iter().collect::<Vec<_>>(), s.clone());
+                chk!($label, inp.clone(), "new(slice).iter() == from(vec).iter()".to_string(), t3.iter().collect::<Vec<_>>(), s.clone());
+            }
             let max = *s.iter().max().unwrap();
             for _ in 0..60 {
                 let i = match rng.gen_range(0..5) { 0 => 0, 1 => n, 2 => n + 1, 3 => n.saturating_sub(1), _ => rng.gen_range(0..=n) };
@@ -209,6 +222,8 @@ fn bitvector_test(rng: &mut StdRng) {
     chk!("BitVectorMut", hist.clone(), "zeros().collect()".to_string(), bv.zeros().collect::<Vec<usize>>(), (0..n).filter(|&i| !model[i]).collect::<Vec<usize>>());
     let p = rng.gen_range(0..n + 3);
     chk!("BitVectorMut", hist.clone(), format!("ones_with_pos({}).collect()", p), bv.ones_with_pos(p).collect::<Vec<usize>>(), (p.min(n)..n).filter(|&i| model[i]).collect::<Vec<usize>>());
+    let from_pos: BitVectorMut = (0..n).filter(|&i| model[i]).collect();
+    chk!("BitVectorMut", hist.clone(), "collected from the positions of the ones: same ones".to_string(), from_pos.ones().collect::<Vec<usize>>(), (0..n).filter(|&i| model[i]).collect::<Vec<usize>>());
     let rebuilt: BitVectorMut = model.iter().copied().collect();
     chk!("BitVectorMut", hist.clone(), "== vector collected from the same bools".to_string(), rebuilt == bv, true);
     let imm: BitVector = bv.clone().into();
@@ -238,6 +253,13 @@ macro_rules! rsq_test {
             let built = catch_unwind(AssertUnwindSafe(|| <$ty>::new(&q.iter().map(|&x| x as u64).collect::<Vec<u64>>())));
             let r = match built { Ok(t) => t, Err(_) => report($label, inp, "new".into(), "panic".into(), "a vector".into()) };
             chk!($label, inp.clone(), "len()".to_string(), r.len(), n);
+            if n <= 5000 {
+                let qv: QVector = q.iter().copied().collect();
+                chk!($label, inp.clone(), "from(QVector) == new(slice)".to_string(), <$ty>::from(qv) == r, true);
+                let r2: $ty = q.iter().copied().collect();
+                chk!($label, inp.clone(), "collect() == new(slice)".to_string(), r2 == r, true);
+                chk!($label, inp.clone(), "clone() == self".to_string(), r.clone() == r, true);
+            }
             let mut pref = vec![[0usize; 4]; n + 1];
             for i in 0..n { pref[i + 1] = pref[i]; pref[i + 1][q[i] as usize] += 1; }
             for s in 0..6u8 {
@@ -279,8 +301,10 @@ macro_rules! rsbin_test {
             let n = b.len();
             let inp = if n <= 70 { format!("{:?}", b.iter().map(|&x| x as u8).collect::<Vec<u8>>()) } else { format!("len {} ones {}", n, b.iter().filter(|&&x| x).count()) };
             let bv: BitVector = b.iter().copied().collect();
+            let bv2 = bv.clone();
             let built = catch_unwind(AssertUnwindSafe(|| <$ty>::new(bv)));
             let r = match built { Ok(t) => t, Err(_) => report($label, inp, "new".into(), "panic".into(), "a structure".into()) };
+            if n <= 5000 { chk!($label, inp.clone(), "from(BitVector) == new(BitVector), clone == self".to_string(), (<$ty>::from(bv2) == r, r.clone() == r), (true, true)); }
             let mut pref = vec![0usize; n + 1];
             for i in 0..n { pref[i + 1] = pref[i] + b[i] as usize; }
             let ones = pref[n];
@@ -332,6 +356,13 @@ fn darray_test(rng: &mut StdRng) {
     let inp = format!("{} ones, len {}, first {:?}", pos.len(), n, &pos[..pos.len().min(6)]);
     let built = catch_unwind(AssertUnwindSafe(|| pos.iter().copied().collect::<DArray<true>>()));
     let da = match built { Ok(d) => d, Err(_) => report("DArray<true>", inp, "collect".into(), "panic".into(), "a DArray".into()) };
+    {
+        let bools: Vec<bool> = { let mut v = vec![false; n]; for &p in &pos { v[p] = true; } v };
+        let db: DArray<true> = bools.iter().copied().collect();
+        chk!("DArray<true>", inp.clone(), "collect from bools == collect from positions".to_string(), db == da, true);
+        let bvv: BitVector = pos.iter().copied().collect();
+        chk!("DArray<true>", inp.clone(), "new(BitVector) == collect, clone == self".to_string(), (DArray::<true>::new(bvv) == da, da.clone() == da), (true, true));
+    }
     chk!("DArray<true>", inp.clone(), "count_ones()".to_string(), da.count_ones(), pos.len());
     chk!("DArray<true>", inp.clone(), "len()".to_string(), da.len(), n);
     let zeros: Vec<usize> = { let mut z = Vec::new(); let mut j = 0; for i in 0..n { if j < pos.len() && pos[j] == i { j += 1; } else { z.push(i); } } z };
